@@ -3,6 +3,7 @@ from pyvc.vtypes import REG
 
 B = "basana."
 REG.aliases["ValueMapDict"] = "Dict[Str,Real]"
+REG.unbounded.update({"avail", "granted"})
 
 REG.enum("OrderOperation", B + "core.enums.OrderOperation", {"BUY": 100, "SELL": 101})
 REG.enum("OrderState", B + "backtesting.orders.OrderState", {"OPEN": 100, "COMPLETED": 101, "CANCELED": 102})
@@ -37,12 +38,14 @@ REG.klass("OrderInfo", B + "backtesting.orders.OrderInfo",
 REG.klass("Order", B + "backtesting.orders.Order", abstract=True,
           fields={"_id": "Str", "_operation": "OrderOperation", "_pair": "Val:Pair", "_amount": "Real",
                   "_state": "OrderState", "_balance_updates": "ValueMap", "_fees": "ValueMap",
-                  "_fills": "List[Fill]", "_auto_borrow": "Bool", "_auto_repay": "Bool", "_loan_ids": "Set[Str]"})
+                  "_fills": "List[Fill]", "_auto_borrow": "Bool", "_auto_repay": "Bool", "_loan_ids": "Set[Str]",
+                  # declared at the base so that the base contract of get_balance_updates can name it in `modifies`
+                  "_stop_price_hit": "Bool"})
 REG.klass("MarketOrder", B + "backtesting.orders.MarketOrder", bases=["Order"])
 REG.klass("LimitOrder", B + "backtesting.orders.LimitOrder", bases=["Order"], fields={"_limit_price": "Real"})
 REG.klass("StopOrder", B + "backtesting.orders.StopOrder", bases=["Order"], fields={"_stop_price": "Real"})
 REG.klass("StopLimitOrder", B + "backtesting.orders.StopLimitOrder", bases=["Order"],
-          fields={"_stop_price": "Real", "_limit_price": "Real", "_stop_price_hit": "Bool"})
+          fields={"_stop_price": "Real", "_limit_price": "Real"})
 
 # --- backtesting: fees ---------------------------------------------------------------------------------------------
 REG.klass("FeeStrategy", B + "backtesting.fees.FeeStrategy", abstract=True)
@@ -54,3 +57,19 @@ REG.klass("Percentage", B + "backtesting.fees.Percentage", bases=["FeeStrategy"]
 REG.klass("TokenBucketLimiter", B + "core.token_bucket.TokenBucketLimiter",
           fields={"_tokens_per_period": "Real", "_period_duration": "Real", "_tokens": "Real", "_last": "Real",
                   "_capacity": "Real"})
+
+# --- core: bars ---------------------------------------------------------------------------------------------------
+REG.klass("Event", B + "core.event.Event", fields={"when": "DT"})
+REG.klass("Bar", B + "core.bar.Bar",
+          fields={"datetime": "DT", "pair": "Val:Pair", "open": "Real", "high": "Real", "low": "Real", "close": "Real",
+                  "volume": "Real"})
+REG.klass("BarEvent", B + "core.bar.BarEvent", bases=["Event"], fields={"bar": "Bar"})
+
+# --- backtesting: liquidity ---------------------------------------------------------------------------------------
+# ghost `avail`: what available_liquidity returns now; ghost `used`: base amount taken since the last on_bar
+REG.klass("LiquidityStrategy", B + "backtesting.liquidity.LiquidityStrategy", abstract=True,
+          ghost={"avail": "Real", "used": "Real", "granted": "Real", "infinite": "Bool"})
+REG.klass("InfiniteLiquidity", B + "backtesting.liquidity.InfiniteLiquidity", bases=["LiquidityStrategy"])
+REG.klass("VolumeShareImpact", B + "backtesting.liquidity.VolumeShareImpact", bases=["LiquidityStrategy"],
+          fields={"_volume_limit_pct": "Real", "_price_impact_pct": "Real", "_total_liquidity": "Real",
+                  "_used_liquidity": "Real"})
